@@ -555,4 +555,901 @@ theorem tokCache_out {env : Env} {s : State} (rid : Rid) : (tokCache env s rid).
     · rfl
   · rfl
 
+theorem sarLookup_out {env : Env} {s : State} (h : Inv env s) (rid : Rid) :
+    ∀ o ∈ (sarLookup s rid).2, ∃ t, o = .sar t ∧ SarOutOK env t ∧ SarFrom s t := by
+  unfold sarLookup
+  split
+  · rename_i p hf
+    have hp := findSar_some hf
+    split
+    · rename_i cid hst
+      have hc : cid.host = p.host ∧ cid.inst = p.inst := (h.sarP p hp.1).2 cid (by rw [hst]; rfl)
+      split
+      · rename_i e hg
+        have he := h.sarE _ (sarGet_mem hg)
+        split
+        · rename_i hlive
+          intro o ho
+          simp only [List.mem_singleton] at ho
+          subst ho
+          refine ⟨_, rfl, ?_, ⟨p, hp.1, hp.2, rfl, rfl, rfl⟩⟩
+          obtain ⟨h1, h2, h3⟩ := he
+          simp only at h1 h2 h3
+          rw [hc.2] at h1
+          exact ⟨rfl, p.inst, rfl, h2, hlive, e.st, h1, h3, rfl⟩
+        · intro o ho; cases ho
+      · intro o ho; cases ho
+    · intro o ho; cases ho
+  · intro o ho; cases ho
+
+theorem sarFinish_out {env : Env} {s : State} (rid : Rid) :
+    ∀ o ∈ (sarFinish env s rid).2, ∃ t, o = .sar t ∧ SarOutOK env t ∧ SarFrom s t := by
+  unfold sarFinish
+  split
+  · rename_i p hf
+    have hp := findSar_some hf
+    split
+    · have key : ∃ t, Out.sar ⟨rid, p.host, p.attrs, some p.inst, (env.sarO p.inst (specOf p.attrs) s.clock).res, s.clock, .fresh, some p.ep, p.ready⟩ = .sar t ∧ SarOutOK env t ∧ SarFrom s t :=
+        ⟨_, rfl, ⟨rfl, p.inst, rfl, rfl⟩, ⟨p, hp.1, hp.2, rfl, rfl, rfl⟩⟩
+      simp only []
+      split
+      · intro o ho
+        simp only [List.mem_singleton] at ho
+        subst ho
+        exact key
+      · split
+        · intro o ho
+          simp only [List.mem_singleton] at ho
+          subst ho
+          exact key
+        · intro o ho
+          simp only [List.mem_singleton] at ho
+          subst ho
+          exact key
+    · intro o ho; cases ho
+  · intro o ho; cases ho
+
+theorem sarCache_out {s : State} (rid : Rid) : (sarCache s rid).2 = [] := by
+  unfold sarCache
+  split
+  · split
+    · split <;> rfl
+    · rfl
+  · rfl
+
+/-! ## ClientFor -/
+
+theorem pickOne_mem {s : State} {c : Inst} {ch : Nat} {e : Endpoint} (h : pickOne s c ch = some e) : e ∈ readyOf s c := by
+  unfold pickOne at h
+  simp only at h
+  split at h
+  · cases h
+  · exact List.mem_of_getElem? h
+
+theorem pickOne_none {s : State} {c : Inst} {ch : Nat} (h : pickOne s c ch = none) : readyOf s c = [] := by
+  unfold pickOne at h
+  simp only at h
+  split at h
+  · rename_i he
+    simpa using he
+  · rename_i he
+    have hne : readyOf s c ≠ [] := by simpa using he
+    have hpos : 0 < (readyOf s c).length := List.length_pos_iff.2 hne
+    have hlt : ch % (readyOf s c).length < (readyOf s c).length := Nat.mod_lt _ hpos
+    rw [List.getElem?_eq_getElem hlt] at h
+    cases h
+
+/-- `ClientFor(host)` succeeds exactly with the cluster the manager maps the host to and one of ITS ready
+    endpoints; it fails with `notFound` iff the host is unknown and with `noReady` iff the cluster has no ready endpoint -/
+theorem clientFor_ok {s : State} {host : Str} {ch : Nat} {c : Inst} {e : Endpoint} (h : clientFor s host ch = .ok (c, e)) :
+    mgrGet s.mgr host = some c ∧ e ∈ readyOf s c := by
+  unfold clientFor at h
+  split at h
+  · cases h
+  · rename_i c' hg
+    split at h
+    · cases h
+    · rename_i e' hp
+      cases h
+      exact ⟨hg, pickOne_mem hp⟩
+
+theorem clientFor_err {s : State} {host : Str} {ch : Nat} {k : ErrKind} (h : clientFor s host ch = .error k) :
+    (k = .notFound ∧ mgrGet s.mgr host = none) ∨ (k = .noReady ∧ ∃ c, mgrGet s.mgr host = some c ∧ readyOf s c = []) := by
+  unfold clientFor at h
+  split at h
+  · rename_i hg
+    cases h
+    exact Or.inl ⟨rfl, hg⟩
+  · rename_i c hg
+    split at h
+    · rename_i hp
+      cases h
+      exact Or.inr ⟨rfl, c, hg, pickOne_none hp⟩
+    · cases h
+
+theorem mem_readyOf {s : State} {c : Inst} {e : Endpoint} (h : e ∈ readyOf s c) :
+    (c, e) ∈ s.eps ∧ e.isReady = true := by
+  unfold readyOf at h
+  obtain ⟨h1, h2⟩ := List.mem_filter.1 h
+  unfold epsOf at h1
+  obtain ⟨x, hx, hxe⟩ := List.mem_map.1 h1
+  obtain ⟨hx1, hx2⟩ := List.mem_filter.1 hx
+  simp only [decide_eq_true_eq] at hx2
+  obtain ⟨a, b⟩ := x
+  simp only at hx2 hxe
+  subst hx2; subst hxe
+  exact ⟨hx1, h2⟩
+
+/-! ## requests keep their identity: host, credentials and resolved cluster of a pending request never change,
+and request ids are never reused -/
+
+def TokSame (p p' : TokPend) : Prop := p.rid = p'.rid ∧ p.host = p'.host ∧ p.tok = p'.tok ∧ p.inst = p'.inst
+def SarSame (p p' : SarPend) : Prop := p.rid = p'.rid ∧ p.host = p'.host ∧ p.attrs = p'.attrs ∧ p.inst = p'.inst
+
+/-- after a step the pending token requests are old ones (possibly at another stage) or new ones with a fresh id -/
+def TokPendStep (s s' : State) : Prop :=
+  s.nextRid ≤ s'.nextRid ∧ ∀ p' ∈ s'.tokPend, (∃ p ∈ s.tokPend, TokSame p p') ∨ s.nextRid ≤ p'.rid
+
+def SarPendStep (s s' : State) : Prop :=
+  s.nextRid ≤ s'.nextRid ∧ ∀ p' ∈ s'.sarPend, (∃ p ∈ s.sarPend, SarSame p p') ∨ s.nextRid ≤ p'.rid
+
+theorem tps_same {s s' : State} (h1 : s.nextRid ≤ s'.nextRid) (h2 : s'.tokPend = s.tokPend) : TokPendStep s s' :=
+  ⟨h1, fun p' hp' => Or.inl ⟨p', h2 ▸ hp', rfl, rfl, rfl, rfl⟩⟩
+
+theorem sps_same {s s' : State} (h1 : s.nextRid ≤ s'.nextRid) (h2 : s'.sarPend = s.sarPend) : SarPendStep s s' :=
+  ⟨h1, fun p' hp' => Or.inl ⟨p', h2 ▸ hp', rfl, rfl, rfl, rfl⟩⟩
+
+theorem tps_set {s s0 : State} {p : TokPend} {st : TokStage} (hp : p ∈ s.tokPend) (h1 : s.nextRid ≤ s0.nextRid)
+    (h2 : s0.tokPend = s.tokPend) : TokPendStep s (setTok s0 { p with stage := st }) := by
+  refine ⟨h1, fun p' hp' => ?_⟩
+  cases mem_setTok hp' with
+  | inl e => subst e; exact Or.inl ⟨p, hp, rfl, rfl, rfl, rfl⟩
+  | inr e => exact Or.inl ⟨p', h2 ▸ e, rfl, rfl, rfl, rfl⟩
+
+theorem sps_set {s s0 : State} {p : SarPend} {st : SarStage} (hp : p ∈ s.sarPend) (h1 : s.nextRid ≤ s0.nextRid)
+    (h2 : s0.sarPend = s.sarPend) : SarPendStep s (setSar s0 { p with stage := st }) := by
+  refine ⟨h1, fun p' hp' => ?_⟩
+  cases mem_setSar hp' with
+  | inl e => subst e; exact Or.inl ⟨p, hp, rfl, rfl, rfl, rfl⟩
+  | inr e => exact Or.inl ⟨p', h2 ▸ e, rfl, rfl, rfl, rfl⟩
+
+theorem tps_del {s : State} (rid : Rid) : TokPendStep s (delTok s rid) :=
+  ⟨Nat.le_refl _, fun p' hp' => Or.inl ⟨p', mem_delTok hp', rfl, rfl, rfl, rfl⟩⟩
+
+theorem sps_del {s : State} (rid : Rid) : SarPendStep s (delSar s rid) :=
+  ⟨Nat.le_refl _, fun p' hp' => Or.inl ⟨p', mem_delSar hp', rfl, rfl, rfl, rfl⟩⟩
+
+theorem evStep_pend (s : State) (e : Ev) :
+    (evStep s e).nextRid = s.nextRid ∧ (evStep s e).tokPend = s.tokPend ∧ (evStep s e).sarPend = s.sarPend := by
+  cases e <;> simp only [evStep] <;> (try split) <;> (first | exact ⟨rfl, rfl, rfl⟩ | simp)
+
+theorem tokBegin_pend (s : State) (rid : Rid) (host tok : Str) (ch : Nat) :
+    TokPendStep s (tokBegin s rid host tok ch).1 ∧ SarPendStep s (tokBegin s rid host tok ch).1 := by
+  unfold tokBegin
+  split
+  · exact ⟨tps_same (Nat.le_refl _) rfl, sps_same (Nat.le_refl _) rfl⟩
+  · rename_i hlt
+    have hn : s.nextRid ≤ rid + 1 := Nat.le_succ_of_le (Nat.le_of_not_lt hlt)
+    simp only []
+    split
+    · exact ⟨tps_same hn rfl, sps_same hn rfl⟩
+    · refine ⟨⟨hn, fun p' hp' => ?_⟩, sps_same hn rfl⟩
+      cases mem_setTok hp' with
+      | inl e => subst e; exact Or.inr (Nat.le_of_not_lt hlt)
+      | inr e => exact Or.inl ⟨p', e, rfl, rfl, rfl, rfl⟩
+
+theorem sarBegin_pend (s : State) (rid : Rid) (host : Str) (attrs : Attrs) (ch : Nat) :
+    TokPendStep s (sarBegin s rid host attrs ch).1 ∧ SarPendStep s (sarBegin s rid host attrs ch).1 := by
+  unfold sarBegin
+  split
+  · exact ⟨tps_same (Nat.le_refl _) rfl, sps_same (Nat.le_refl _) rfl⟩
+  · rename_i hlt
+    have hn : s.nextRid ≤ rid + 1 := Nat.le_succ_of_le (Nat.le_of_not_lt hlt)
+    simp only []
+    split
+    · exact ⟨tps_same hn rfl, sps_same hn rfl⟩
+    · refine ⟨tps_same hn rfl, ⟨hn, fun p' hp' => ?_⟩⟩
+      cases mem_setSar hp' with
+      | inl e => subst e; exact Or.inr (Nat.le_of_not_lt hlt)
+      | inr e => exact Or.inl ⟨p', e, rfl, rfl, rfl, rfl⟩
+
+theorem tokCache_pend (env : Env) (s : State) (rid : Rid) :
+    TokPendStep s (tokCache env s rid).1 ∧ SarPendStep s (tokCache env s rid).1 := by
+  unfold tokCache
+  split
+  · rename_i p hf
+    have hp := (findTok_some hf).1
+    split
+    · split
+      · exact ⟨tps_set hp (Nat.le_refl _) rfl, sps_same (Nat.le_refl _) rfl⟩
+      · split
+        · exact ⟨tps_set hp (Nat.le_refl _) rfl, sps_same (Nat.le_refl _) rfl⟩
+        · exact ⟨tps_set hp (Nat.le_refl _) rfl, sps_same (Nat.le_refl _) rfl⟩
+    · exact ⟨tps_same (Nat.le_refl _) rfl, sps_same (Nat.le_refl _) rfl⟩
+  · exact ⟨tps_same (Nat.le_refl _) rfl, sps_same (Nat.le_refl _) rfl⟩
+
+theorem tokLookup_pend (s : State) (rid : Rid) :
+    TokPendStep s (tokLookup s rid).1 ∧ SarPendStep s (tokLookup s rid).1 := by
+  unfold tokLookup
+  split
+  · rename_i p hf
+    have hp := (findTok_some hf).1
+    split
+    · split
+      · split
+        · exact ⟨tps_del rid, sps_same (Nat.le_refl _) rfl⟩
+        · exact ⟨tps_set hp (Nat.le_refl _) rfl, sps_same (Nat.le_refl _) rfl⟩
+      · exact ⟨tps_set hp (Nat.le_refl _) rfl, sps_same (Nat.le_refl _) rfl⟩
+    · exact ⟨tps_same (Nat.le_refl _) rfl, sps_same (Nat.le_refl _) rfl⟩
+  · exact ⟨tps_same (Nat.le_refl _) rfl, sps_same (Nat.le_refl _) rfl⟩
+
+theorem tokReview_pend (s : State) (rid : Rid) (ch : Nat) :
+    TokPendStep s (tokReview s rid ch).1 ∧ SarPendStep s (tokReview s rid ch).1 := by
+  unfold tokReview
+  split
+  · rename_i p hf
+    have hp := (findTok_some hf).1
+    split
+    · split
+      · exact ⟨tps_del rid, sps_same (Nat.le_refl _) rfl⟩
+      · split
+        · exact ⟨tps_del rid, sps_same (Nat.le_refl _) rfl⟩
+        · exact ⟨tps_set hp (Nat.le_refl _) rfl, sps_same (Nat.le_refl _) rfl⟩
+    · exact ⟨tps_same (Nat.le_refl _) rfl, sps_same (Nat.le_refl _) rfl⟩
+  · exact ⟨tps_same (Nat.le_refl _) rfl, sps_same (Nat.le_refl _) rfl⟩
+
+theorem tokFinish_pend (env : Env) (s : State) (rid : Rid) :
+    TokPendStep s (tokFinish env s rid).1 ∧ SarPendStep s (tokFinish env s rid).1 := by
+  unfold tokFinish
+  split
+  · split
+    · simp only []
+      split
+      · exact ⟨tps_del rid, sps_same (Nat.le_refl _) rfl⟩
+      · split
+        · exact ⟨tps_del rid, sps_same (Nat.le_refl _) rfl⟩
+        · split
+          · exact ⟨tps_del rid, sps_same (Nat.le_refl _) rfl⟩
+          · exact ⟨tps_del rid, sps_same (Nat.le_refl _) rfl⟩
+    · exact ⟨tps_same (Nat.le_refl _) rfl, sps_same (Nat.le_refl _) rfl⟩
+  · exact ⟨tps_same (Nat.le_refl _) rfl, sps_same (Nat.le_refl _) rfl⟩
+
+theorem sarCache_pend (s : State) (rid : Rid) :
+    TokPendStep s (sarCache s rid).1 ∧ SarPendStep s (sarCache s rid).1 := by
+  unfold sarCache
+  split
+  · rename_i p hf
+    have hp := (findSar_some hf).1
+    split
+    · split
+      · exact ⟨tps_same (Nat.le_refl _) rfl, sps_set hp (Nat.le_refl _) rfl⟩
+      · exact ⟨tps_same (Nat.le_refl _) rfl, sps_set hp (Nat.le_refl _) rfl⟩
+    · exact ⟨tps_same (Nat.le_refl _) rfl, sps_same (Nat.le_refl _) rfl⟩
+  · exact ⟨tps_same (Nat.le_refl _) rfl, sps_same (Nat.le_refl _) rfl⟩
+
+theorem sarLookup_pend (s : State) (rid : Rid) :
+    TokPendStep s (sarLookup s rid).1 ∧ SarPendStep s (sarLookup s rid).1 := by
+  unfold sarLookup
+  split
+  · rename_i p hf
+    have hp := (findSar_some hf).1
+    split
+    · split
+      · split
+        · exact ⟨tps_same (Nat.le_refl _) rfl, sps_del rid⟩
+        · exact ⟨tps_same (Nat.le_refl _) rfl, sps_set hp (Nat.le_refl _) rfl⟩
+      · exact ⟨tps_same (Nat.le_refl _) rfl, sps_set hp (Nat.le_refl _) rfl⟩
+    · exact ⟨tps_same (Nat.le_refl _) rfl, sps_same (Nat.le_refl _) rfl⟩
+  · exact ⟨tps_same (Nat.le_refl _) rfl, sps_same (Nat.le_refl _) rfl⟩
+
+theorem sarFinish_pend (env : Env) (s : State) (rid : Rid) :
+    TokPendStep s (sarFinish env s rid).1 ∧ SarPendStep s (sarFinish env s rid).1 := by
+  unfold sarFinish
+  split
+  · split
+    · simp only []
+      split
+      · exact ⟨tps_same (Nat.le_refl _) rfl, sps_del rid⟩
+      · split
+        · exact ⟨tps_same (Nat.le_refl _) rfl, sps_del rid⟩
+        · exact ⟨tps_same (Nat.le_refl _) rfl, sps_del rid⟩
+    · exact ⟨tps_same (Nat.le_refl _) rfl, sps_same (Nat.le_refl _) rfl⟩
+  · exact ⟨tps_same (Nat.le_refl _) rfl, sps_same (Nat.le_refl _) rfl⟩
+
+theorem step_pend (env : Env) (s : State) (st : Step) :
+    TokPendStep s (step env s st).1 ∧ SarPendStep s (step env s st).1 := by
+  cases st with
+  | ev e =>
+    obtain ⟨h1, h2, h3⟩ := evStep_pend s e
+    exact ⟨tps_same (Nat.le_of_eq h1.symm) h2, sps_same (Nat.le_of_eq h1.symm) h3⟩
+  | tokBegin rid host tok ch => exact tokBegin_pend s rid host tok ch
+  | tokCache rid => exact tokCache_pend env s rid
+  | tokLookup rid => exact tokLookup_pend s rid
+  | tokReview rid ch => exact tokReview_pend s rid ch
+  | tokFinish rid => exact tokFinish_pend env s rid
+  | sarBegin rid host attrs ch => exact sarBegin_pend s rid host attrs ch
+  | sarCache rid => exact sarCache_pend s rid
+  | sarLookup rid => exact sarLookup_pend s rid
+  | sarFinish rid => exact sarFinish_pend env s rid
+
+/-! ## following one request id through a run -/
+
+theorem clientFor_nextRid (s : State) (n : Rid) (host : Str) (ch : Nat) :
+    clientFor { s with nextRid := n } host ch = clientFor s host ch := rfl
+
+theorem tokBegin_out (s : State) (rid : Rid) (host tok : Str) (ch : Nat) :
+    ∀ o ∈ (tokBegin s rid host tok ch).2, s.nextRid ≤ rid ∧ ∃ k, clientFor s host ch = .error k ∧
+      o = .tok ⟨rid, host, tok, mgrGet s.mgr host, .error k, s.clock, .none, none, []⟩ := by
+  unfold tokBegin
+  split
+  · intro o ho; cases ho
+  · rename_i hlt
+    simp only []
+    rw [clientFor_nextRid]
+    split
+    · rename_i k hk
+      intro o ho
+      simp only [List.mem_singleton] at ho
+      subst ho
+      exact ⟨Nat.le_of_not_lt hlt, k, hk, rfl⟩
+    · intro o ho; cases ho
+
+theorem sarBegin_out (s : State) (rid : Rid) (host : Str) (attrs : Attrs) (ch : Nat) :
+    ∀ o ∈ (sarBegin s rid host attrs ch).2, s.nextRid ≤ rid ∧ ∃ k, clientFor s host ch = .error k ∧
+      o = .sar ⟨rid, host, attrs, mgrGet s.mgr host, sarErr k, s.clock, .none, none, []⟩ := by
+  unfold sarBegin
+  split
+  · intro o ho; cases ho
+  · rename_i hlt
+    simp only []
+    rw [clientFor_nextRid]
+    split
+    · rename_i k hk
+      intro o ho
+      simp only [List.mem_singleton] at ho
+      subst ho
+      exact ⟨Nat.le_of_not_lt hlt, k, hk, rfl⟩
+    · intro o ho; cases ho
+
+/-- every token answer a step gives is either the refusal of a `tokBegin` with a fresh id, or the answer to a
+    pending request, and then it is what the invariant promises -/
+theorem step_tok_out {env : Env} {s : State} (h : Inv env s) (st : Step) (t : TokOut)
+    (ht : Out.tok t ∈ (step env s st).2) : (TokOutOK env t ∧ TokFrom s t) ∨ s.nextRid ≤ t.rid := by
+  cases st with
+  | ev e => cases ht
+  | tokBegin rid host tok ch =>
+    obtain ⟨hn, k, _, e⟩ := tokBegin_out s rid host tok ch _ ht
+    cases e
+    exact Or.inr hn
+  | tokCache rid =>
+    have : (step env s (.tokCache rid)).2 = [] := tokCache_out rid
+    rw [this] at ht; cases ht
+  | tokLookup rid =>
+    obtain ⟨t', e, h1, h2⟩ := tokLookup_out h rid _ ht
+    cases e; exact Or.inl ⟨h1, h2⟩
+  | tokReview rid ch =>
+    obtain ⟨t', e, h1, h2⟩ := tokReview_out (env := env) rid ch _ ht
+    cases e; exact Or.inl ⟨h1, h2⟩
+  | tokFinish rid =>
+    obtain ⟨t', e, h1, h2⟩ := tokFinish_out rid _ ht
+    cases e; exact Or.inl ⟨h1, h2⟩
+  | sarBegin rid host attrs ch =>
+    obtain ⟨_, k, _, e⟩ := sarBegin_out s rid host attrs ch _ ht
+    cases e
+  | sarCache rid =>
+    have : (step env s (.sarCache rid)).2 = [] := sarCache_out rid
+    rw [this] at ht; cases ht
+  | sarLookup rid =>
+    obtain ⟨t', e, _⟩ := sarLookup_out h rid _ ht
+    cases e
+  | sarFinish rid =>
+    obtain ⟨t', e, _⟩ := sarFinish_out (env := env) rid _ ht
+    cases e
+
+theorem step_sar_out {env : Env} {s : State} (h : Inv env s) (st : Step) (t : SarOut)
+    (ht : Out.sar t ∈ (step env s st).2) : (SarOutOK env t ∧ SarFrom s t) ∨ s.nextRid ≤ t.rid := by
+  cases st with
+  | ev e => cases ht
+  | tokBegin rid host tok ch =>
+    obtain ⟨_, k, _, e⟩ := tokBegin_out s rid host tok ch _ ht
+    cases e
+  | tokCache rid =>
+    have : (step env s (.tokCache rid)).2 = [] := tokCache_out rid
+    rw [this] at ht; cases ht
+  | tokLookup rid =>
+    obtain ⟨t', e, _⟩ := tokLookup_out h rid _ ht
+    cases e
+  | tokReview rid ch =>
+    obtain ⟨t', e, _⟩ := tokReview_out (env := env) rid ch _ ht
+    cases e
+  | tokFinish rid =>
+    obtain ⟨t', e, _⟩ := tokFinish_out rid _ ht
+    cases e
+  | sarBegin rid host attrs ch =>
+    obtain ⟨hn, k, _, e⟩ := sarBegin_out s rid host attrs ch _ ht
+    cases e
+    exact Or.inr hn
+  | sarCache rid =>
+    have : (step env s (.sarCache rid)).2 = [] := sarCache_out rid
+    rw [this] at ht; cases ht
+  | sarLookup rid =>
+    obtain ⟨t', e, h1, h2⟩ := sarLookup_out h rid _ ht
+    cases e; exact Or.inl ⟨h1, h2⟩
+  | sarFinish rid =>
+    obtain ⟨t', e, h1, h2⟩ := sarFinish_out (env := env) rid _ ht
+    cases e; exact Or.inl ⟨h1, h2⟩
+
+/-- request id `rid` has been handed out and, while it is pending as a token request, it is for a host / token /
+    resolved cluster satisfying `Q` -/
+def RidTok (rid : Rid) (Q : Str → Str → Inst → Prop) (s : State) : Prop :=
+  rid < s.nextRid ∧ ∀ p ∈ s.tokPend, p.rid = rid → Q p.host p.tok p.inst
+
+def RidSar (rid : Rid) (Q : Str → Attrs → Inst → Prop) (s : State) : Prop :=
+  rid < s.nextRid ∧ ∀ p ∈ s.sarPend, p.rid = rid → Q p.host p.attrs p.inst
+
+theorem ridTok_step {env : Env} {rid : Rid} {Q} {s : State} (h : RidTok rid Q s) (st : Step) :
+    RidTok rid Q (step env s st).1 := by
+  obtain ⟨hn, hp⟩ := (step_pend env s st).1
+  refine ⟨Nat.lt_of_lt_of_le h.1 hn, fun p' hp' hr => ?_⟩
+  cases hp p' hp' with
+  | inl hx =>
+    obtain ⟨p, hpm, h1, h2, h3, h4⟩ := hx
+    rw [← h2, ← h3, ← h4]
+    exact h.2 p hpm (h1.trans hr)
+  | inr hx =>
+    rw [hr] at hx
+    exact absurd h.1 (Nat.not_lt_of_le hx)
+
+theorem ridSar_step {env : Env} {rid : Rid} {Q} {s : State} (h : RidSar rid Q s) (st : Step) :
+    RidSar rid Q (step env s st).1 := by
+  obtain ⟨hn, hp⟩ := (step_pend env s st).2
+  refine ⟨Nat.lt_of_lt_of_le h.1 hn, fun p' hp' hr => ?_⟩
+  cases hp p' hp' with
+  | inl hx =>
+    obtain ⟨p, hpm, h1, h2, h3, h4⟩ := hx
+    rw [← h2, ← h3, ← h4]
+    exact h.2 p hpm (h1.trans hr)
+  | inr hx =>
+    rw [hr] at hx
+    exact absurd h.1 (Nat.not_lt_of_le hx)
+
+theorem run_tok {env : Env} (rid : Rid) (Q : Str → Str → Inst → Prop) :
+    ∀ (steps : List Step) (s : State), Inv env s → RidTok rid Q s →
+      ∀ t, Out.tok t ∈ (runSteps env s steps).2 → t.rid = rid →
+        TokOutOK env t ∧ ∃ c, t.inst = some c ∧ Q t.host t.tok c := by
+  intro steps
+  induction steps with
+  | nil => intro s _ _ t ht; cases ht
+  | cons st rest ih =>
+    intro s hinv hrid t ht hr
+    simp only [runSteps] at ht
+    cases List.mem_append.1 ht with
+    | inl h1 =>
+      cases step_tok_out hinv st t h1 with
+      | inl h2 =>
+        obtain ⟨hok, p, hpm, e1, e2, e3, e4⟩ := h2
+        refine ⟨hok, p.inst, e4, ?_⟩
+        rw [e2, e3]
+        exact hrid.2 p hpm (e1.trans hr)
+      | inr h2 =>
+        rw [hr] at h2
+        exact absurd hrid.1 (Nat.not_lt_of_le h2)
+    | inr h1 => exact ih _ (inv_step hinv st) (ridTok_step hrid st) t h1 hr
+
+theorem run_sar {env : Env} (rid : Rid) (Q : Str → Attrs → Inst → Prop) :
+    ∀ (steps : List Step) (s : State), Inv env s → RidSar rid Q s →
+      ∀ t, Out.sar t ∈ (runSteps env s steps).2 → t.rid = rid →
+        SarOutOK env t ∧ ∃ c, t.inst = some c ∧ Q t.host t.attrs c := by
+  intro steps
+  induction steps with
+  | nil => intro s _ _ t ht; cases ht
+  | cons st rest ih =>
+    intro s hinv hrid t ht hr
+    simp only [runSteps] at ht
+    cases List.mem_append.1 ht with
+    | inl h1 =>
+      cases step_sar_out hinv st t h1 with
+      | inl h2 =>
+        obtain ⟨hok, p, hpm, e1, e2, e3, e4⟩ := h2
+        refine ⟨hok, p.inst, e4, ?_⟩
+        rw [e2, e3]
+        exact hrid.2 p hpm (e1.trans hr)
+      | inr h2 =>
+        rw [hr] at h2
+        exact absurd hrid.1 (Nat.not_lt_of_le h2)
+    | inr h1 => exact ih _ (inv_step hinv st) (ridSar_step hrid st) t h1 hr
+
+/-! ## from the shape of an answer to the judge -/
+
+theorem tokJudge_of_ok {env : Env} {t : TokOut} {c : Inst} (hok : TokOutOK env t) (hi : t.inst = some c) :
+    TokJudge env ⟨some c, true, t.tok, t.res, t.time, t.ep.isSome⟩ := by
+  unfold TokJudge
+  simp only [Bool.true_eq_false, if_false]
+  unfold TokOutOK at hok
+  split at hok
+  · obtain ⟨h1, h2, h3⟩ := hok
+    simp only [h1, Option.isSome_none, Bool.false_eq_true, if_false]
+    exact Or.inl ⟨h2, h3⟩
+  · obtain ⟨h1, c', h2, h3⟩ := hok
+    rw [hi] at h2; cases h2
+    simp only [h1, if_true]
+    exact h3
+  · rename_i st ex _
+    obtain ⟨h1, c', h2, h3, h4, h5, h6, h7⟩ := hok
+    rw [hi] at h2; cases h2
+    simp only [h1, Option.isSome_none, Bool.false_eq_true, if_false]
+    refine Or.inr ⟨st, h3, h7, h6, ?_⟩
+    show t.time < st + tokTTL env.cfg (env.tokO c t.tok st)
+    rw [← h5]; exact h4
+
+theorem decideStatus_err_deny (st : SarStatus) (h : (decideStatus st).err ≠ none) : (decideStatus st).decision = .deny := by
+  unfold decideStatus at h ⊢
+  split
+  · rfl
+  · split
+    · rfl
+    · split <;> simp_all
+
+theorem sarAns_err_deny (a : SarAns) (h : a.res.err ≠ none) : a.res.decision = .deny := by
+  cases a with
+  | status st => exact decideStatus_err_deny st h
+  | err => exact decisionOnError_deny
+
+theorem sarJudge_of_ok {env : Env} {t : SarOut} {c : Inst} (hok : SarOutOK env t) (hi : t.inst = some c) :
+    SarJudge env ⟨some c, true, t.attrs, t.res, t.time, t.ep.isSome⟩ := by
+  unfold SarOutOK at hok
+  split at hok
+  · cases hok
+  · obtain ⟨h1, c', h2, h3⟩ := hok
+    rw [hi] at h2; cases h2
+    refine ⟨?_, ?_⟩
+    · intro hne
+      show t.res.decision = .deny
+      rw [h3] at hne ⊢
+      exact sarAns_err_deny _ hne
+    · simp only [Bool.true_eq_false, if_false, h1, if_true]
+      exact h3
+  · rename_i st ex _
+    obtain ⟨h1, c', h2, h3, h4, status, h5, h6, h7⟩ := hok
+    rw [hi] at h2; cases h2
+    refine ⟨?_, ?_⟩
+    · intro hne
+      show t.res.decision = .deny
+      rw [h7] at hne ⊢
+      exact decideStatus_err_deny _ hne
+    · simp only [Bool.true_eq_false, if_false, h1, Option.isSome_none, Bool.false_eq_true]
+      refine ⟨st, h3, status, h5, h7, ?_⟩
+      show t.time ≤ st + sarTTL env.cfg status
+      rw [← h6]; exact h4
+
+/-! ## the scheduled requests driven by the harness are small-step runs -/
+
+theorem runSteps_append (env : Env) (s : State) (a b : List Step) :
+    runSteps env s (a ++ b) =
+      ((runSteps env (runSteps env s a).1 b).1, (runSteps env s a).2 ++ (runSteps env (runSteps env s a).1 b).2) := by
+  induction a generalizing s with
+  | nil => simp [runSteps]
+  | cons x xs ih =>
+    simp only [List.cons_append, runSteps]
+    rw [ih]
+    simp [List.append_assoc]
+
+/-- the run record is faithful: its state and answers are those of running its step list from `init` -/
+def RunOK (env : Env) (r : Run) : Prop := runSteps env init r.steps = (r.s, r.outs)
+
+theorem runOK_init (env : Env) : RunOK env ⟨init, [], []⟩ := rfl
+
+theorem runOK_app {env : Env} {r : Run} (h : RunOK env r) (st : Step) : RunOK env (r.app env st) := by
+  unfold RunOK Run.app at *
+  simp only []
+  rw [runSteps_append, h]
+  simp [runSteps]
+
+mutual
+  theorem runOK_macro (env : Env) : ∀ (m : Macro) (r : Run), RunOK env r → RunOK env (runMacro env r m)
+    | .ev e, r, h => by
+      unfold runMacro
+      exact runOK_app h _
+    | .tok hostport tok ch1 ch2 mid1 mid2, r, h => by
+      unfold runMacro
+      simp only []
+      have h3 := runOK_app (runOK_app (runOK_app (runOK_app h (.ev (.tick 1)))
+        (.tokBegin (r.app env (.ev (.tick 1))).s.nextRid (hostWithoutPort hostport) tok ch1))
+        (.tokCache (r.app env (.ev (.tick 1))).s.nextRid)) (.tokLookup (r.app env (.ev (.tick 1))).s.nextRid)
+      split
+      · exact h3
+      · have h4 := runOK_app (runOK_macros env mid1 _ h3) (.tokReview (r.app env (.ev (.tick 1))).s.nextRid ch2)
+        split
+        · exact h4
+        · exact runOK_app (runOK_macros env mid2 _ h4) _
+    | .sar hostport attrs ch mid, r, h => by
+      unfold runMacro
+      simp only []
+      have h3 := runOK_app (runOK_app (runOK_app (runOK_app h (.ev (.tick 1)))
+        (.sarBegin (r.app env (.ev (.tick 1))).s.nextRid (hostWithoutPort hostport) attrs ch))
+        (.sarCache (r.app env (.ev (.tick 1))).s.nextRid)) (.sarLookup (r.app env (.ev (.tick 1))).s.nextRid)
+      split
+      · exact h3
+      · exact runOK_app (runOK_macros env mid _ h3) _
+  theorem runOK_macros (env : Env) : ∀ (ms : List Macro) (r : Run), RunOK env r → RunOK env (runMacros env r ms)
+    | [], r, h => by
+      unfold runMacros
+      exact h
+    | m :: ms, r, h => by
+      unfold runMacros
+      exact runOK_macros env ms _ (runOK_macro env m r h)
+end
+
+/-! ## an uninterrupted request is answered exactly once -/
+
+theorem findTok_setTok (s : State) (p : TokPend) : findTok (setTok s p) p.rid = some p := by
+  unfold findTok setTok
+  simp
+
+theorem findSar_setSar (s : State) (p : SarPend) : findSar (setSar s p) p.rid = some p := by
+  unfold findSar setSar
+  simp
+
+theorem findTok_delTok (s : State) (rid : Rid) : findTok (delTok s rid) rid = none := by
+  unfold findTok delTok
+  simp [List.find?_eq_none]
+
+theorem findSar_delSar (s : State) (rid : Rid) : findSar (delSar s rid) rid = none := by
+  unfold findSar delSar
+  simp [List.find?_eq_none]
+
+theorem findTok_none_of {s : State} {rid : Rid} (h : ∀ p ∈ s.tokPend, p.rid ≠ rid) : findTok s rid = none := by
+  unfold findTok
+  simp only [List.find?_eq_none, decide_eq_true_eq]
+  exact h
+
+theorem findSar_none_of {s : State} {rid : Rid} (h : ∀ p ∈ s.sarPend, p.rid ≠ rid) : findSar s rid = none := by
+  unfold findSar
+  simp only [List.find?_eq_none, decide_eq_true_eq]
+  exact h
+
+theorem tok_noop {env : Env} {s : State} {rid : Rid} (h : findTok s rid = none) (ch : Nat) :
+    tokCache env s rid = (s, []) ∧ tokLookup s rid = (s, []) ∧ tokReview s rid ch = (s, []) ∧ tokFinish env s rid = (s, []) := by
+  unfold tokCache tokLookup tokReview tokFinish
+  simp [h]
+
+theorem sar_noop {env : Env} {s : State} {rid : Rid} (h : findSar s rid = none) :
+    sarCache s rid = (s, []) ∧ sarLookup s rid = (s, []) ∧ sarFinish env s rid = (s, []) := by
+  unfold sarCache sarLookup sarFinish
+  simp [h]
+
+/-- `tokFinish` on a request in flight answers it -/
+theorem tokFinish_answers {env : Env} {s : State} {rid : Rid} {p : TokPend} {cid : Option CacheId} {ep : Str} {ready : List Str}
+    (hf : findTok s rid = some p) (hst : p.stage = .inFlight cid ep ready) :
+    ∃ t, (tokFinish env s rid).2 = [.tok t] ∧ t.rid = rid := by
+  unfold tokFinish
+  simp only [hf, hst]
+  cases cid with
+  | none => exact ⟨_, rfl, rfl⟩
+  | some c =>
+    simp only []
+    split
+    · exact ⟨_, rfl, rfl⟩
+    · split
+      · exact ⟨_, rfl, rfl⟩
+      · exact ⟨_, rfl, rfl⟩
+
+theorem tokReview_finish_answers {env : Env} {s : State} {p : TokPend} {cid : Option CacheId} (ch : Nat)
+    (hf : findTok s p.rid = some p) (hst : p.stage = .missed cid) :
+    ∃ t, (runSteps env s [.tokReview p.rid ch, .tokFinish p.rid]).2 = [.tok t] ∧ t.rid = p.rid := by
+  simp only [runSteps, step, List.append_nil]
+  have hrev : tokReview s p.rid ch =
+      (match clientFor s p.host ch with
+       | .error k => (delTok s p.rid, [tokOutErr s p.rid p.host p.tok (some p.inst) k])
+       | .ok (cur, e) =>
+         if cur ≠ p.inst then (delTok s p.rid, [tokOutErr s p.rid p.host p.tok (some p.inst) .moved])
+         else (setTok s { p with stage := .inFlight cid e.name (readyNames s p.inst) }, [])) := by
+    unfold tokReview
+    simp only [hf, hst]
+    rfl
+  rw [hrev]
+  cases hcf : clientFor s p.host ch with
+  | error k =>
+    simp only []
+    rw [(tok_noop (env := env) (findTok_delTok s p.rid) 0).2.2.2]
+    exact ⟨_, rfl, rfl⟩
+  | ok ce =>
+    obtain ⟨cur, e⟩ := ce
+    simp only []
+    by_cases hcur : cur = p.inst
+    · simp only [hcur, ne_eq, not_true_eq_false, if_false]
+      have hf' : findTok (setTok s { p with stage := TokStage.inFlight cid e.name (readyNames s p.inst) }) p.rid =
+          some { p with stage := TokStage.inFlight cid e.name (readyNames s p.inst) } :=
+        findTok_setTok s { p with stage := TokStage.inFlight cid e.name (readyNames s p.inst) }
+      obtain ⟨t, h1, h2⟩ := tokFinish_answers (env := env) hf' rfl
+      rw [h1]
+      exact ⟨t, rfl, h2⟩
+    · simp only [ne_eq, hcur, not_false_eq_true, if_true]
+      rw [(tok_noop (env := env) (findTok_delTok s p.rid) 0).2.2.2]
+      exact ⟨_, rfl, rfl⟩
+
+theorem tokLookup_rest_answers {env : Env} {s : State} {p : TokPend} (ch : Nat)
+    (hf : findTok s p.rid = some p)
+    (hst : (∃ cid, p.stage = .haveCache cid) ∨ p.stage = .missed none) :
+    ∃ t, (runSteps env s [.tokLookup p.rid, .tokReview p.rid ch, .tokFinish p.rid]).2 = [.tok t] ∧ t.rid = p.rid := by
+  have hsplit : ∀ s1 o1, tokLookup s p.rid = (s1, o1) →
+      (runSteps env s [.tokLookup p.rid, .tokReview p.rid ch, .tokFinish p.rid]).2 =
+        o1 ++ (runSteps env s1 [.tokReview p.rid ch, .tokFinish p.rid]).2 := by
+    intro s1 o1 h
+    simp only [runSteps, step, h]
+  have hset : ∀ st, findTok (setTok s { p with stage := st }) p.rid = some { p with stage := st } :=
+    fun st => findTok_setTok s { p with stage := st }
+  cases hst with
+  | inr hm =>
+    have hl : tokLookup s p.rid = (s, []) := by
+      unfold tokLookup
+      simp only [hf, hm]
+    rw [hsplit _ _ hl, List.nil_append]
+    exact tokReview_finish_answers ch hf hm
+  | inl hc =>
+    obtain ⟨cid, hc⟩ := hc
+    have hmiss : ∃ t, (runSteps env (setTok s { p with stage := .missed (some cid) }) [.tokReview p.rid ch, .tokFinish p.rid]).2 = [.tok t] ∧ t.rid = p.rid :=
+      tokReview_finish_answers (p := { p with stage := .missed (some cid) }) ch (hset _) rfl
+    cases hg : tokGet s cid p.tok with
+    | none =>
+      have hl : tokLookup s p.rid = (setTok s { p with stage := .missed (some cid) }, []) := by
+        unfold tokLookup
+        simp only [hf, hc, hg]
+      rw [hsplit _ _ hl, List.nil_append]
+      exact hmiss
+    | some e =>
+      by_cases hlive : s.clock < e.expiry
+      · have hl : tokLookup s p.rid = (delTok s p.rid, [.tok ⟨p.rid, p.host, p.tok, some p.inst, e.ans.res, s.clock, .cached e.storedAt e.expiry, none, []⟩]) := by
+          unfold tokLookup
+          simp only [hf, hc, hg, hlive, if_true]
+        rw [hsplit _ _ hl]
+        have hn := tok_noop (env := env) (findTok_delTok s p.rid) ch
+        simp only [runSteps, step, hn.2.2.1, hn.2.2.2, List.append_nil]
+        exact ⟨_, rfl, rfl⟩
+      · have hl : tokLookup s p.rid = (setTok s { p with stage := .missed (some cid) }, []) := by
+          unfold tokLookup
+          simp only [hf, hc, hg, hlive, if_false]
+        rw [hsplit _ _ hl, List.nil_append]
+        exact hmiss
+
+theorem tokCache_rest_answers {env : Env} {s : State} {p : TokPend} (ch : Nat)
+    (hf : findTok s p.rid = some p) (hst : p.stage = .resolved) :
+    ∃ t, (runSteps env s [.tokCache p.rid, .tokLookup p.rid, .tokReview p.rid ch, .tokFinish p.rid]).2 = [.tok t] ∧ t.rid = p.rid := by
+  have hsplit : ∀ s1, tokCache env s p.rid = (s1, []) →
+      (runSteps env s [.tokCache p.rid, .tokLookup p.rid, .tokReview p.rid ch, .tokFinish p.rid]).2 =
+        (runSteps env s1 [.tokLookup p.rid, .tokReview p.rid ch, .tokFinish p.rid]).2 := by
+    intro s1 h
+    simp only [runSteps, step, h, List.nil_append]
+  have hset : ∀ (s0 : State) st, findTok (setTok s0 { p with stage := st }) p.rid = some { p with stage := st } :=
+    fun s0 st => findTok_setTok s0 { p with stage := st }
+  by_cases hz : env.cfg.failureTTL = 0 ∧ env.cfg.successTTL = 0
+  · have hc : tokCache env s p.rid = (setTok s { p with stage := .missed none }, []) := by
+      unfold tokCache
+      simp only [hf, hst, hz, and_self, if_true]
+    rw [hsplit _ hc]
+    exact tokLookup_rest_answers (p := { p with stage := .missed none }) ch (hset _ _) (Or.inr rfl)
+  · cases hm : s.tokMap.find? (fun kv => decide (kv.1 = ⟨p.host, p.inst⟩)) with
+    | some kv =>
+      have hc : tokCache env s p.rid = (setTok s { p with stage := .haveCache ⟨p.host, p.inst, kv.2⟩ }, []) := by
+        unfold tokCache
+        simp only [hf, hst, hz, if_false, hm]
+      rw [hsplit _ hc]
+      exact tokLookup_rest_answers (p := { p with stage := .haveCache _ }) ch (hset _ _) (Or.inl ⟨_, rfl⟩)
+    | none =>
+      have hc : tokCache env s p.rid = (setTok { s with nextGen := s.nextGen + 1, tokMap := (⟨p.host, p.inst⟩, s.nextGen) :: s.tokMap }
+          { p with stage := .haveCache ⟨p.host, p.inst, s.nextGen⟩ }, []) := by
+        unfold tokCache
+        simp only [hf, hst, hz, if_false, hm]
+      rw [hsplit _ hc]
+      exact tokLookup_rest_answers (p := { p with stage := .haveCache _ }) ch (hset _ _) (Or.inl ⟨_, rfl⟩)
+
+theorem sarFinish_answers {env : Env} {s : State} {p : SarPend} {cid : CacheId}
+    (hf : findSar s p.rid = some p) (hst : p.stage = .inFlight cid) :
+    ∃ t, (sarFinish env s p.rid).2 = [.sar t] ∧ t.rid = p.rid := by
+  unfold sarFinish
+  simp only [hf, hst]
+  split
+  · exact ⟨_, rfl, rfl⟩
+  · split
+    · exact ⟨_, rfl, rfl⟩
+    · exact ⟨_, rfl, rfl⟩
+
+theorem sarLookup_rest_answers {env : Env} {s : State} {p : SarPend} {cid : CacheId}
+    (hf : findSar s p.rid = some p) (hst : p.stage = .haveCache cid) :
+    ∃ t, (runSteps env s [.sarLookup p.rid, .sarFinish p.rid]).2 = [.sar t] ∧ t.rid = p.rid := by
+  have hsplit : ∀ s1 o1, sarLookup s p.rid = (s1, o1) →
+      (runSteps env s [.sarLookup p.rid, .sarFinish p.rid]).2 = o1 ++ (sarFinish env s1 p.rid).2 := by
+    intro s1 o1 h
+    simp only [runSteps, step, h, List.append_nil]
+  have hmiss : ∃ t, (sarFinish env (setSar s { p with stage := .inFlight cid }) p.rid).2 = [.sar t] ∧ t.rid = p.rid :=
+    sarFinish_answers (p := { p with stage := .inFlight cid }) (findSar_setSar s { p with stage := .inFlight cid }) rfl
+  cases hg : sarGet s cid (specOf p.attrs) with
+  | none =>
+    have hl : sarLookup s p.rid = (setSar s { p with stage := .inFlight cid }, []) := by
+      unfold sarLookup
+      simp only [hf, hst, hg]
+    rw [hsplit _ _ hl, List.nil_append]
+    exact hmiss
+  | some e =>
+    by_cases hlive : s.clock ≤ e.expiry
+    · have hl : sarLookup s p.rid = (delSar s p.rid, [.sar ⟨p.rid, p.host, p.attrs, some p.inst, decideStatus e.st, s.clock, .cached e.storedAt e.expiry, none, []⟩]) := by
+        unfold sarLookup
+        simp only [hf, hst, hg, hlive, if_true]
+      rw [hsplit _ _ hl, (sar_noop (env := env) (findSar_delSar s p.rid)).2.2]
+      exact ⟨_, rfl, rfl⟩
+    · have hl : sarLookup s p.rid = (setSar s { p with stage := .inFlight cid }, []) := by
+        unfold sarLookup
+        simp only [hf, hst, hg, hlive, if_false]
+      rw [hsplit _ _ hl, List.nil_append]
+      exact hmiss
+
+theorem sarCache_rest_answers {env : Env} {s : State} {p : SarPend}
+    (hf : findSar s p.rid = some p) (hst : p.stage = .resolved) :
+    ∃ t, (runSteps env s [.sarCache p.rid, .sarLookup p.rid, .sarFinish p.rid]).2 = [.sar t] ∧ t.rid = p.rid := by
+  have hsplit : ∀ s1, sarCache s p.rid = (s1, []) →
+      (runSteps env s [.sarCache p.rid, .sarLookup p.rid, .sarFinish p.rid]).2 =
+        (runSteps env s1 [.sarLookup p.rid, .sarFinish p.rid]).2 := by
+    intro s1 h
+    simp only [runSteps, step, h, List.nil_append]
+  cases hm : s.sarMap.find? (fun kv => decide (kv.1 = ⟨p.host, p.inst⟩)) with
+  | some kv =>
+    have hc : sarCache s p.rid = (setSar s { p with stage := .haveCache ⟨p.host, p.inst, kv.2⟩ }, []) := by
+      unfold sarCache
+      simp only [hf, hst, hm]
+    rw [hsplit _ hc]
+    exact sarLookup_rest_answers (p := { p with stage := .haveCache _ }) (findSar_setSar _ _) rfl
+  | none =>
+    have hc : sarCache s p.rid = (setSar { s with nextGen := s.nextGen + 1, sarMap := (⟨p.host, p.inst⟩, s.nextGen) :: s.sarMap }
+        { p with stage := .haveCache ⟨p.host, p.inst, s.nextGen⟩ }, []) := by
+      unfold sarCache
+      simp only [hf, hst, hm]
+    rw [hsplit _ hc]
+    exact sarLookup_rest_answers (p := { p with stage := .haveCache _ }) (findSar_setSar _ _) rfl
+
+/-! ## the first step of a request, computed -/
+
+theorem tokBegin_of_err {s : State} {rid : Rid} {host tok : Str} {ch : Nat} {k : ErrKind}
+    (hn : s.nextRid ≤ rid) (hk : clientFor s host ch = .error k) :
+    tokBegin s rid host tok ch =
+      ({ s with nextRid := rid + 1 }, [.tok ⟨rid, host, tok, mgrGet s.mgr host, .error k, s.clock, .none, none, []⟩]) := by
+  unfold tokBegin
+  rw [if_neg (Nat.not_lt_of_le hn)]
+  simp only [clientFor_nextRid, hk]
+  rfl
+
+theorem tokBegin_of_ok {s : State} {rid : Rid} {host tok : Str} {ch : Nat} {c : Inst} {e : Endpoint}
+    (hn : s.nextRid ≤ rid) (hk : clientFor s host ch = .ok (c, e)) :
+    tokBegin s rid host tok ch = (setTok { s with nextRid := rid + 1 } ⟨rid, host, tok, c, .resolved⟩, []) := by
+  unfold tokBegin
+  rw [if_neg (Nat.not_lt_of_le hn)]
+  simp only [clientFor_nextRid, hk]
+
+theorem sarBegin_of_err {s : State} {rid : Rid} {host : Str} {attrs : Attrs} {ch : Nat} {k : ErrKind}
+    (hn : s.nextRid ≤ rid) (hk : clientFor s host ch = .error k) :
+    sarBegin s rid host attrs ch =
+      ({ s with nextRid := rid + 1 }, [.sar ⟨rid, host, attrs, mgrGet s.mgr host, sarErr k, s.clock, .none, none, []⟩]) := by
+  unfold sarBegin
+  rw [if_neg (Nat.not_lt_of_le hn)]
+  simp only [clientFor_nextRid, hk]
+  rfl
+
+theorem sarBegin_of_ok {s : State} {rid : Rid} {host : Str} {attrs : Attrs} {ch : Nat} {c : Inst} {e : Endpoint}
+    (hn : s.nextRid ≤ rid) (hk : clientFor s host ch = .ok (c, e)) :
+    sarBegin s rid host attrs ch =
+      (setSar { s with nextRid := rid + 1 } ⟨rid, host, attrs, c, e.name, readyNames { s with nextRid := rid + 1 } c, .resolved⟩, []) := by
+  unfold sarBegin
+  rw [if_neg (Nat.not_lt_of_le hn)]
+  simp only [clientFor_nextRid, hk]
+
+theorem ownReady_of_ok {s : State} {host : Str} {ch : Nat} {c : Inst} {e : Endpoint}
+    (hk : clientFor s host ch = .ok (c, e)) : mgrGet s.mgr host = some c ∧ ownReady s host = true := by
+  obtain ⟨h1, h2⟩ := clientFor_ok hk
+  refine ⟨h1, ?_⟩
+  unfold ownReady
+  rw [h1]
+  cases hr : readyOf s c with
+  | nil => rw [hr] at h2; cases h2
+  | cons _ _ => simp [hr]
+
+
 end KG.Lemmas.AuthCache
